@@ -98,6 +98,7 @@ type gen struct {
 	prevTrailing string
 	nameN        int
 	nameHint     string
+	pendingNote  string
 	// lineDirectives: //line directives emitted so far (per generator: unique target names)
 	lineDirectives int
 	last         []*expect
@@ -221,6 +222,20 @@ func (g *gen) doc(ind string, allowMultiBlock bool) docResult {
 	return res
 }
 
+// openNote: a comment on the line that OPENS a struct body or a declaration group ("type T struct { // note",
+// "const ( // note"): the parser attaches it to no node; it documents nothing - in particular not the first member,
+// which sits on the next line.
+func (g *gen) openNote() string {
+	if g.r.Intn(3) != 0 {
+		return ""
+	}
+	g.prevTrailing = "open-line-note"
+	if g.r.Intn(4) == 0 {
+		return " /* " + g.mark() + " */"
+	}
+	return " // " + g.mark()
+}
+
 // trailing returns the text to append to a declaration line and the expectation.
 func (g *gen) trailing() (string, []string, string) {
 	switch g.r.Intn(4) {
@@ -252,9 +267,30 @@ func (g *gen) fields(owner string) { g.fieldsAt(owner, "\t", 0) }
 
 // fieldsAt emits the field list of a struct at indentation ind; owner is the path of field names from the declared
 // type down to this struct ("S3", "S3/F7" for the anonymous struct type of field F7 of S3).
-func (g *gen) fieldsAt(owner, ind string, depth int) {
+// openNoteText / noteShape: the note is decided when the opening line is written, its shape key is applied to the
+// first member afterwards (record() reads g.prevTrailing)
+func (g *gen) openNoteText() string {
+	g.pendingNote = g.openNote()
+	return g.pendingNote
+}
+
+func (g *gen) noteShape() string {
+	if g.pendingNote != "" {
+		g.pendingNote = ""
+		return "open-line-note"
+	}
+	return ""
+}
+
+func (g *gen) fieldsAtAfterNote(owner, ind string, depth int) {
+	g.fieldsAtWith(owner, ind, depth, g.noteShape())
+}
+
+func (g *gen) fieldsAt(owner, ind string, depth int) { g.fieldsAtWith(owner, ind, depth, "") }
+
+func (g *gen) fieldsAtWith(owner, ind string, depth int, firstPrev string) {
 	n := 1 + g.r.Intn(6)
-	g.prevTrailing = ""
+	g.prevTrailing = firstPrev
 	for i := 0; i < n; i++ {
 		d := g.doc(ind, false)
 		if d.shape != "none" {
@@ -279,9 +315,9 @@ func (g *gen) fieldsAt(owner, ind string, depth int) {
 		case pick == 1 && depth < 2:
 			// a field whose type is (built from) a multi-line anonymous struct: its own fields are documented too
 			names = []string{g.name("N")}
-			g.emit(ind + names[0] + " " + []string{"", "*", "[]", "map[string]", "[2]"}[g.r.Intn(5)] + "struct {")
+			g.emit(ind + names[0] + " " + []string{"", "*", "[]", "map[string]", "[2]"}[g.r.Intn(5)] + "struct {" + g.openNoteText())
 			es := g.record("field", owner, names, d, nil, "none", fmt.Sprintf("i%d", min(i, 2))+"|nested-struct")
-			g.fieldsAt(owner+"/"+names[0], ind+"\t", depth+1)
+			g.fieldsAtAfterNote(owner+"/"+names[0], ind+"\t", depth+1)
 			if g.r.Intn(2) == 0 {
 				mk := g.mark()
 				g.emit(ind + "} // " + mk)
@@ -349,9 +385,9 @@ func (g *gen) file1(pkg, file string, decls int) string {
 				g.prevTrailing = ""
 			}
 			n := g.name("S")
-			g.emit("type " + n + " struct {")
+			g.emit("type " + n + " struct {" + g.openNoteText())
 			typeExp := g.record("type", "", []string{n}, d, nil, "none", "ungrouped")
-			g.fields(n)
+			g.fieldsAtAfterNote(n, "\t", 0)
 			// a trailing comment on the LAST line of a multi-line declaration (not the declaration's own line):
 			// it is nobody's Comment() and must not become the next declaration's Doc()
 			if g.r.Intn(2) == 0 {
@@ -366,8 +402,8 @@ func (g *gen) file1(pkg, file string, decls int) string {
 				g.prevTrailing = ""
 			}
 		case 2: // grouped types
-			g.emit("type (")
-			g.prevTrailing = ""
+			g.emit("type (" + g.openNoteText())
+			g.prevTrailing = g.noteShape()
 			k := 2 + g.r.Intn(3)
 			for j := 0; j < k; j++ {
 				d := g.doc("\t", false)
@@ -387,8 +423,8 @@ func (g *gen) file1(pkg, file string, decls int) string {
 			g.prevTrailing = ""
 		case 3, 4: // grouped const / var
 			kw := []string{"const", "var"}[g.r.Intn(2)]
-			g.emit(kw + " (")
-			g.prevTrailing = ""
+			g.emit(kw + " (" + g.openNoteText())
+			g.prevTrailing = g.noteShape()
 			k := 2 + g.r.Intn(4)
 			for j := 0; j < k; j++ {
 				d := g.doc("\t", false)
@@ -729,7 +765,10 @@ func refExtract(lines []string, markers []byte) (map[string][]string, []string) 
 	return tags, other
 }
 
-var tagAtoms = []string{"+", "@", "#", "=", " ", "  ", "k", "key", "gengo:deepcopy", "gengo:x:y", "v", "a=b", "é", "\t", "false", "+k=v", "@k v", "+k", "-", "x y z"}
+var tagAtoms = []string{
+	// non-ASCII first characters whose code point ENDS in the byte of a marker (U+0440, U+042B, U+592B: low byte 0x40 /
+	// 0x2B; U+0123: low byte '#') - they are ordinary text, never markers; a marker followed by non-ASCII text
+	"р", "Ы", "夫", "ģ", "размер", "夫妻", "+р", "@夫", "＋", "＠","+", "@", "#", "=", " ", "  ", "k", "key", "gengo:deepcopy", "gengo:x:y", "v", "a=b", "é", "\t", "false", "+k=v", "@k v", "+k", "-", "x y z"}
 
 func (p *prop) runTags(c core.Case, res *core.Result) {
 	var pa params
